@@ -67,7 +67,8 @@ def retrieveData (img : Image) (lower : Bool) (a count : Nat) : Option (List Nat
 /-- a decoded instruction -/
 structure Dec where
   memo : List Char
-  /-- `#` for the immediate forms -/
+  /-- `#` for the immediate forms, `>` for an extended-mode operand in page 0 (asl would choose direct addressing for the bare
+  text; since the repair of deco68.c) -/
   pre : List Char
   /-- the operand as `MakeSymbolic` rendered it; `none` for the implicit forms -/
   atom : Option (List Char)
@@ -106,7 +107,8 @@ def decode (lower : Bool) (syms : Syms) (a op : Nat) (data : List Nat) : Option 
   | .eExtended =>
     let pfx := if r.next / 2 % 2 = 1 then some (if memo = "jsr" then "sub_" else "lab_") else none
     let t := makeSymbolic lower syms oa 2 pfx
-    some (⟨r.memo, [], some t.1.toList, false, len, r.next, oa, none⟩, t.2)
+    -- `"%s\t%s%s", Memo, (OpAddr < 0x100) ? ">" : "", pOp`
+    some (⟨r.memo, if oa < 0x100 then ['>'] else [], some t.1.toList, false, len, r.next, oa, none⟩, t.2)
   | .eImmediate =>
     let t := makeSymbolic lower syms oa (r.opSize + 1) none
     some (⟨r.memo, ['#'], some t.1.toList, false, len, r.next, oa, none⟩, t.2)
